@@ -220,6 +220,9 @@ func (e *TBEnv) tbProgram(src string) string {
 type TBSignal struct {
 	AfterMs int    `json:"after_ms"`
 	Sig     string `json:"sig"` // INT TERM KILL
+	// OnComplete > 0: instead of waiting AfterMs, send the signal at the moment the
+	// OnComplete-th job (split, chunk or join) has recorded its completion on disk.
+	OnComplete int `json:"on_complete,omitempty"`
 }
 
 type TBSpec struct {
@@ -236,11 +239,13 @@ type TBSpec struct {
 }
 
 type TBIncarnation struct {
-	ExitCode int    `json:"exit"`
-	Signal   string `json:"signal,omitempty"`
-	LockLeft bool   `json:"lock_left"`
-	Output   string `json:"output"`
-	TimedOut bool   `json:"timed_out"`
+	// job directories (relative to the pipestance) whose _complete marker was on disk when the signal was sent
+	CompleteAtSignal []string `json:"complete_at_signal,omitempty"`
+	ExitCode         int      `json:"exit"`
+	Signal           string   `json:"signal,omitempty"`
+	LockLeft         bool     `json:"lock_left"`
+	Output           string   `json:"output"`
+	TimedOut         bool     `json:"timed_out"`
 }
 
 type TBResult struct {
@@ -292,7 +297,27 @@ func (e *TBEnv) Run(spec *TBSpec, rng *rand.Rand) *TBResult {
 		done := make(chan error, 1)
 		go func() { done <- cmd.Wait() }()
 		var sigTimer <-chan time.Time
-		if sig != nil {
+		if sig != nil && sig.OnComplete > 0 {
+			ch := make(chan time.Time, 1)
+			sigTimer = ch
+			stopWatch := make(chan struct{})
+			defer close(stopWatch)
+			go func() {
+				for {
+					select {
+					case <-stopWatch:
+						return
+					default:
+					}
+					if dirs := completedJobDirs(res.PsDir); len(dirs) >= sig.OnComplete {
+						inc.CompleteAtSignal = dirs
+						ch <- time.Now()
+						return
+					}
+					time.Sleep(500 * time.Microsecond)
+				}
+			}()
+		} else if sig != nil {
 			sigTimer = time.After(time.Duration(sig.AfterMs) * time.Millisecond)
 		}
 		timeout := time.After(spec.Timeout)
@@ -311,7 +336,22 @@ func (e *TBEnv) Run(spec *TBSpec, rng *rand.Rand) *TBResult {
 					s = syscall.SIGKILL
 				}
 				inc.Signal = sig.Sig
-				if sig.Sig == "KILL" {
+				if sig.Sig == "STOPKILL" {
+					// mrp stops being scheduled (as under memory pressure or a debugger) while its jobs go on
+					// and record their completion; then it is killed: every job that completed meanwhile
+					// has a completion marker mrp never got to see, and a process mrp never reaped
+					before := len(completedJobDirs(res.PsDir))
+					cmd.Process.Signal(syscall.SIGSTOP)
+					for w := 0; w < 400; w++ {
+						time.Sleep(10 * time.Millisecond)
+						if len(completedJobDirs(res.PsDir)) > before && w > 30 {
+							break
+						}
+					}
+					inc.CompleteAtSignal = completedJobDirs(res.PsDir)
+					inc.Signal = "KILL"
+					syscall.Kill(-cmd.Process.Pid, syscall.SIGKILL)
+				} else if sig.Sig == "KILL" {
 					// kill outright: mrp and (as a terminal or scheduler would) its whole process group
 					syscall.Kill(-cmd.Process.Pid, s)
 				} else {
@@ -461,5 +501,27 @@ func tbIntervals(log []tbLogRec) []tbInterval {
 		out = append(out, *iv) // never ended (killed)
 	}
 	sort.Slice(out, func(i, j int) bool { return out[i].Start < out[j].Start })
+	return out
+}
+
+// completedJobDirs: the job directories (split*, chnk*, join* below a fork directory) that
+// contain a _complete marker, relative to the pipestance directory, sorted.
+func completedJobDirs(psdir string) []string {
+	var out []string
+	filepath.WalkDir(psdir, func(p string, d os.DirEntry, err error) error {
+		if err != nil {
+			return nil
+		}
+		if !d.IsDir() && d.Name() == "_complete" {
+			dir := filepath.Dir(p)
+			b := filepath.Base(dir)
+			if strings.HasPrefix(b, "chnk") || strings.HasPrefix(b, "split") || strings.HasPrefix(b, "join") {
+				rel, _ := filepath.Rel(psdir, dir)
+				out = append(out, rel)
+			}
+		}
+		return nil
+	})
+	sort.Strings(out)
 	return out
 }
